@@ -2,8 +2,17 @@ use crate::{logging, utils, Result};
 cfg_exporter! {
     use crate::exporter;
 }
+#[cfg(not(sentinel_verif))]
 use lazy_static::lazy_static;
+#[cfg(sentinel_verif)]
+use sentinel_verif_rt::lazy_static;
+#[cfg(not(sentinel_verif))]
 use std::sync::{
+    atomic::{AtomicU64, Ordering},
+    Arc, Mutex, Once,
+};
+#[cfg(sentinel_verif)]
+use sentinel_verif_rt::sync::{
     atomic::{AtomicU64, Ordering},
     Arc, Mutex, Once,
 };
